@@ -96,7 +96,7 @@ def tlc(module, cfg, env=None, workers=None, timeout=3600, simulate=None, depth=
     """Run TLC on spec/<module>.tla with spec/cfg/<cfg>. Returns TlcResult. Raises MachineryError on crashes."""
     meta = os.path.join(OUT, "tlcmeta", (metatag or module) + "-" + str(os.getpid()) + "-" + str(time.time_ns()))
     os.makedirs(meta, exist_ok=True)
-    jopts = ["-XX:+UseParallelGC", "-Xmx6g"]
+    jopts = ["-XX:+UseParallelGC", "-Xmx6g", "-Xss32m"]
     if deque:
         jopts.append("-Dtlc2.tool.queue.IStateQueue=StateDeque")
     cmd = ["java"] + jopts + ["-cp", TLC_CP, "tlc2.TLC", "-workers", str(workers or NCPU), "-metadir", meta,
